@@ -12,6 +12,7 @@ import (
 	_ "crypto/sha512"
 	"fmt"
 	"math/big"
+	"reflect"
 
 	"gitlab.com/yawning/secp256k1-voi/secec"
 	"gitlab.com/yawning/secp256k1-voi/secec/bitcoin"
@@ -114,8 +115,12 @@ func runCase(q ref.Pt, digest []byte, r, s *big.Int, vs []int, dHex string) stri
 			w := lib.RefVerifyEncoded(q, digest, sig, o)
 			var got bool
 			in := append([]byte{}, sig...)
-			if pn := lib.Try(func() { got = pk.Verify(dgIn, in, o.Impl()) }); pn != "" {
+			opv := o.Impl()
+			if pn := lib.Try(func() { got = pk.Verify(dgIn, in, opv) }); pn != "" {
 				return fmt.Sprintf("Verify(opts=%v) panic: %s", o, pn)
+			}
+			if !reflect.DeepEqual(opv, o.Impl()) {
+				return fmt.Sprintf("Verify modified the caller's options: %+v, passed in as %+v", opv, o.Impl())
 			}
 			if got != w {
 				return fmt.Sprintf("Verify(opts=%v, sig=%x) = %v, reference %v", o, sig, got, w)
